@@ -25,6 +25,30 @@ type c01Finding struct {
 }
 
 // c01Check runs one case on the reference and both interpreters (through alpha).
+func firstReadOrderDiff(want, got []uint32) string {
+	first := func(r []uint32) []uint32 {
+		var out []uint32
+		seen := map[uint32]bool{}
+		for _, a := range r {
+			if !seen[a] {
+				seen[a] = true
+				out = append(out, a)
+			}
+		}
+		return out
+	}
+	w, g := first(want), first(got)
+	if len(w) != len(g) {
+		return fmt.Sprintf("model reads %06x, interpreter %06x", want, got)
+	}
+	for i := range w {
+		if w[i] != g[i] {
+			return fmt.Sprintf("model reads %06x, interpreter %06x", want, got)
+		}
+	}
+	return ""
+}
+
 func c01Check(x *cpuCtx, c *cpuCase) (out []c01Finding, nontrivial bool) {
 	x.buildImage(c)
 	rr := x.runRef(c, 0)
@@ -46,6 +70,14 @@ func c01Check(x *cpuCtx, c *cpuCase) (out []c01Finding, nontrivial bool) {
 			}
 		}
 		if len(d) == 0 {
+			// the bus reads, in the order in which each address is read for the first time, are those of the
+			// programming model (opcode, operand bytes low to high, pointers low to high, data low byte before
+			// high byte): a location may be a hardware register that notices. Repeated reads of an address
+			// already read are tolerated (both interpreters read the pointer of (abs,X) jumps twice).
+			if rd := firstReadOrderDiff(x.ref.Reads, mem.Reads); rd != "" && ir.panic == nil && !rr.care.Loose {
+				out = append(out, c01Finding{"unexplained:read-order:" + x.ms[i].Name() + ":" + e.Mn + ":" + modeName[e.Mode],
+					fmt.Sprintf("%s %s %s: registers and memory are right, but the bus is read in another order than the programming model prescribes: %s | case %s", x.ms[i].Name(), e.Mn, modeName[e.Mode], rd, c.String())})
+			}
 			continue
 		}
 		name := x.ms[i].Name()
